@@ -4,6 +4,7 @@ package fault
 
 import (
 	"bytes"
+	"encoding/binary"
 	"fmt"
 	"math/big"
 	"sort"
@@ -33,6 +34,9 @@ func decode(data []byte) (interface{}, error) {
 func kindOf(v interface{}) (string, int) {
 	switch x := v.(type) {
 	case []byte:
+		if looksLengthPrefixed(x) {
+			return "lpbytes", len(x)
+		}
 		return "bytes", len(x)
 	case uint64:
 		return "uint", 0
@@ -165,9 +169,36 @@ func replace(v interface{}, parts []string, f func(interface{}) (interface{}, bo
 	return v, false
 }
 
+// looksLengthPrefixed: the byte string starts with a 4-byte big-endian count that is plausible for its length
+// (the library's hand-written binary encodings: polynomial.Exponent, ...).
+func looksLengthPrefixed(b []byte) bool {
+	if len(b) < 8 {
+		return false
+	}
+	n := binary.BigEndian.Uint32(b[:4])
+	return n > 0 && uint64(n) <= uint64(len(b)-4)
+}
+
+// WrapFactors: element sizes k for which the announced count is set to floor(2^32 / k) + 1, the smallest count whose
+// product with k overflows 32 bits (what a size computation "count * k" in the decoder would wrap on).
+func WrapFactors() []int {
+	var ks []int
+	for k := 2; k <= 72; k++ {
+		ks = append(ks, k)
+	}
+	return append(ks, 96, 128, 256)
+}
+
 // Alterations applicable to a leaf kind.
 func Alterations(kind string) []string {
 	switch kind {
+	case "lpbytes":
+		a := append([]string{}, Alterations("bytes")...)
+		a = append(a, "lenmax", "lenhalf")
+		for _, k := range WrapFactors() {
+			a = append(a, fmt.Sprintf("lenwrap%d", k))
+		}
+		return a
 	case "bytes":
 		return []string{"zero", "ones", "flipfirst", "fliplast", "trunc", "extend", "empty", "donor", "random", "null", "absent"}
 	case "uint", "int":
@@ -256,6 +287,19 @@ func Mutate(data []byte, path, alt string, donor []byte, rnd *sim.Rng) ([]byte, 
 				b = []byte{}
 			case "random":
 				b = rnd.Bytes(len(b))
+			case "lenmax":
+				if len(b) >= 4 {
+					binary.BigEndian.PutUint32(b[:4], 0xffffffff)
+				}
+			case "lenhalf":
+				if len(b) >= 4 {
+					binary.BigEndian.PutUint32(b[:4], 0x80000000)
+				}
+			default:
+				var k uint64
+				if _, err := fmt.Sscanf(alt, "lenwrap%d", &k); err == nil && k >= 2 && len(b) >= 4 {
+					binary.BigEndian.PutUint32(b[:4], uint32((uint64(1)<<32)/k+1))
+				}
 			}
 			return b, false
 		case big.Int:
